@@ -282,6 +282,12 @@ def main(tier, seed, replay):
             lon2, lat2 = rng.uniform(-PI, PI), math.asin(rng.uniform(-1, 1))
         elif mode < 0.8:
             lon2, lat2 = lon1 + rng.uniform(-0.05, 0.05), max(-1.57, min(1.57, lat1 + rng.uniform(-0.05, 0.05)))
+        elif mode < 0.9:
+            # exactly antipodal / identical (the cosine of the central angle rounds to just outside [-1,1])
+            if rng.random() < 0.7:
+                lon2, lat2 = (lon1 + PI if lon1 <= 0 else lon1 - PI), -lat1
+            else:
+                lon2, lat2 = lon1, lat1
         else:
             # nearly antipodal
             lon2, lat2 = lon1 + PI + rng.uniform(-0.05, 0.05), -lat1 + rng.uniform(-0.05, 0.05)
@@ -507,7 +513,7 @@ def check_conv(V, c, cplan):
             ang = math.atan2(math.sqrt(cr[0] ** 2 + cr[1] ** 2 + cr[2] ** 2), a[0] * b[0] + a[1] * b[1] + a[2] * b[2])
             ex = r * ang
             # acos form loses accuracy for tiny and nearly antipodal separations: absolute tolerance 2e-8 rad
-            if abs(v[0] - ex) > r * 3e-8 + 1e-9 * ex:
+            if not (abs(v[0] - ex) <= r * 3e-8 + 1e-9 * ex):       # written so that a NaN answer fails
                 cls = 'obtuse' if ang > PI / 2 else 'acute'
                 V.violation('great-circle-distance-wrong:%s' % cls, {'arg': arg, 'got': v[0], 'expected': ex, 'central_angle': ang})
             if ang > PI / 2:
